@@ -257,7 +257,8 @@ func newMachine(c *Ctx, name string) *Machine {
 	}
 	sc := c.Types.Scope()
 	for _, n := range sc.Names() {
-		if k, ok := sc.Lookup(n).(*types.Const); ok && isStateType(c, k.Type()) {
+		// the states: the constants of the state variable's own type (other small enumerations of the package are none of the machine's business)
+		if k, ok := sc.Lookup(n).(*types.Const); ok && isStateType(c, k.Type()) && (m.stateV == nil || types.Identical(k.Type(), m.stateV.Type())) {
 			m.states = append(m.states, n)
 		}
 	}
